@@ -809,7 +809,7 @@ def _norm_block(lst, fn):
                 i += 1
                 continue
         # v = d[k] ... del d[k]   ->   v = d.pop(k)
-        if isinstance(st, ast.Assign) and len(st.targets) == 1 and isinstance(st.targets[0], ast.Name) \
+        if isinstance(st, ast.Assign) and len(st.targets) == 1 and isinstance(st.targets[0], (ast.Name, ast.Tuple)) \
                 and isinstance(st.value, ast.Subscript) and not isinstance(st.value.slice, ast.Slice):
             for j in range(i + 1, min(i + 4, len(lst))):
                 d = lst[j]
